@@ -86,6 +86,10 @@ def run(c):
 
     # ---------------------------------------------------------------- 2. scripts
     scripts = []
+    if c.replay and json.load(open(c.replay))["replay"].get("kind") == "composed":
+        composed(c, json.load(open(c.replay))["replay"]["script"])
+        c.finish_args = dict(rule="replay of one composed-exporter script", distinct_nontrivial=1)
+        return
     if c.replay:
         rp = json.load(open(c.replay))["replay"]
         todo = [dict(rp["script"], dies=rp["dies"], id="replay")]
@@ -270,6 +274,14 @@ def run(c):
     # ---------------------------------------------------------------- 4. strict conformance (drift only)
     strict(c, strict_sample)
 
+    # ---------------------------------------------------------------- 5. the queue inside the composed exporter
+    # "a hand-off interrupted by shutdown leaves the request stored for the next start; a request disappears from
+    # storage only after a final outcome" -- with everything the exporter helper puts between the queue and the
+    # export function: batcher (requests merged and SPLIT, so one stored request has several outcomes that are
+    # combined), retry sender (back-off interrupted by shutdown), obs report.  Scripts are behaviours of
+    # specs/ExporterHelper (persistent configurations only), the verdict is XHMonitor's DrainedPersistent clause.
+    composed(c)
+
     c.evaluations = runs_total
     c.exhaustive = False
     c.assumptions += ["storage Batch is atomic (the storage contract the queue relies on)",
@@ -280,6 +292,47 @@ def run(c):
                               "real queue once per storage-call boundary of every incarnation (death at the entry of call K), "
                               "then per boundary of the following recovery; non-trivial = a death actually occurred",
                          distinct_nontrivial=crash_points)
+
+
+def composed(c, replay_script=None):
+    import xslib
+    from xslib import R3
+    binp = c.go_build("exporter", pkg="./xs", out=os.path.join(c.work, "bin_xs"))
+    if replay_script:
+        s = dict(replay_script, id="replay")
+        lines = xslib.execute(c, binp, [s], "composed_replay")
+        for v in xslib.monitor(c, lines, "composed_replay"):
+            if v["clause"] == "DrainedPersistent":
+                c.violation("composed exporter (persistent queue + batcher + retry): accepted items %s are neither exported with a "
+                            "final outcome nor stored after Shutdown; script: %s" % (v["detail"], xslib.fmt(s)),
+                            replay_obj=dict(kind="composed", script=replay_script))
+        c.sample(dict(script=xslib.fmt(s)))
+        return
+    plans = [((R3, "persistent", 3, 1, False, 0, 0, True), {}), ((R3, "persistent", 3, 1, True, 3, 2, True), {}),
+             ((R3, "persistent", 3, 1, True, 2, 1, True), {}), ((R3, "persistent", 3, 2, True, 2, 1, True), {})]
+    scripts = xslib.generate(c, plans, num=c.pick(60, 600))
+    scripts = xslib.variants(scripts, c.rng, signals=False)
+    lines = xslib.execute_or_crash(c, binp, scripts, "composed")
+    if lines is None:
+        return
+    verdicts = [v for v in xslib.monitor(c, lines, "composed") if v["clause"] == "DrainedPersistent"]
+    byid = {s["id"]: s for s in scripts}
+    reported = 0
+    for v in verdicts[:20]:
+        s = byid[v["script"]]
+        l2 = xslib.execute(c, binp, [dict(s, id="confirm")], "composed_confirm")     # alone, once more
+        if not [w for w in xslib.monitor(c, l2, "composed_confirm") if w["clause"] == "DrainedPersistent"]:
+            c.extra["composed_unconfirmed"] = c.extra.get("composed_unconfirmed", 0) + 1
+            continue
+        c.violation("composed exporter (persistent queue + batcher + retry): accepted items %s are neither exported with a final "
+                    "outcome nor stored after Shutdown; script: %s" % (v["detail"], xslib.fmt(s)),
+                    replay_obj=dict(kind="composed", script={k: s[k] for k in ("cfg", "steps", "outcomes")}))
+        reported += 1
+        if reported >= 5:
+            break
+    c.traces_validated += len(scripts)
+    c.extra["composed_scripts"] = len(scripts)
+    c.log("composed exporter: %d scripts, %d DrainedPersistent verdict lines, %d reported" % (len(scripts), len(verdicts), reported))
 
 
 def strict(c, sample):
